@@ -77,6 +77,24 @@ CHECKS.update({
             "exposed in the head; functor: 10 terms x 10 patterns x 8 arities; join: all word/punctuation sequences <= 3 as arguments, list, list behind a variable, bound elements.", E3_NOTE, "§2 E3, §3 C17"),
 })
 
+E4_NOTE = ("Trusted base: the canonical printer / grammar in harness/src/term.rs, prog.rs and e4.rs (derived from the documented syntax), "
+           "the values built through the public constructors, and the small-scope hypothesis. The parsers are the real ones; every call runs under catch_unwind in a watchdogged worker process.")
+
+CHECKS.update({
+    "C18": ("e4", "exploration", "bounded-exhaustive strings and corpus edits through all parser entry points under a crash/hang monitor (no reference model)",
+            "Every string of length <= 5 (quick) / 6 (thorough) over a 26-symbol syntax alphabet and every single edit (thorough: double edits) of a 24-text valid corpus is given to all 10 parser "
+            "entry points; a panic (identified by site), abort, stack overflow or hang is a violation. Exploration level: the oracle is only 'returns a value or an error message'.", E4_NOTE, "§2 E4, §3 C18"),
+    "C19": ("e4", "model_checking", "bounded-exhaustive derivations of the canonical grammar: parse / Display / re-parse vs constructor-built values",
+            "All terms of depth <= 2 (thorough 3), all leaf goals over depth-1 terms (calls, zero-arity goals in both spellings, =, named and infix comparisons and arithmetic, not, built-ins) and "
+            "rules with and/or bodies of <= 3 goals: parse(canonical text) must equal the value built through the constructors, Display must give the canonical text, parse(Display) the same value.", E4_NOTE, "§2 E4, §3 C19"),
+    "C20": ("e4", "model_checking", "every term text x 9 syntactic contexts on the real parsers; all nine parses must agree",
+            "Term texts of the C19 grammar plus signed numbers, punctuation atoms, odd numerals and infix arithmetic, each parsed alone, as first/last complex argument, built-in argument, first/last list element, "
+            "left/right operand of `=`, and query argument.", E4_NOTE, "§2 E4, §3 C20"),
+    "C21": ("e4", "model_checking", "programs of 1-3 grammar rules x all (capped) subsets of legal break points x indentation / blank-line / comment styles, loaded by the real file reader vs rule-by-rule parse",
+            "About 10^6 generated files per quick run: every rule of the grammar (plus float / infix / quoted extras and the repository's own rules) alone with every subset of break points after - , ; = (capped at 16; 64 thorough) "
+            "and every style on the fully broken layout; pairs and triples with sampled layouts. load_kb_from_file must give exactly the rules parse_rule gives, in order, or (never observed) reject the file.", E4_NOTE, "§2 E4, §3 C21"),
+})
+
 NOT_YET = {
 }
 
@@ -122,6 +140,8 @@ def main():
              "kind_free_text": "explicit-state BFS over real substitution sets; every transition is a real unify call judged against a reference unifier"},
             {"name": "e2", "path": "harness/src/e2.rs", "serves_properties": ["C01", "C02", "C03", "C04", "C05", "C10", "C11", "C12", "C14", "C15", "C16", "C17"],
              "kind_free_text": "bounded-exhaustive programs x queries x call histories executed on the real engine, each call compared with a reference interpreter"},
+            {"name": "e4", "path": "harness/src/e4.rs, harness/src/e4b.rs", "serves_properties": ["C18", "C19", "C20", "C21"],
+             "kind_free_text": "bounded-exhaustive strings / grammar derivations / file layouts through the real parsers and file reader"},
         ],
         "checks": checks,
         "not_applicable": na,
